@@ -7,7 +7,7 @@ P=$(python3 -c "import json;print(json.load(open('$D/meta.json'))['property'])")
 if [ -n "$(git -C /repo status --porcelain)" ]; then echo "/repo not clean"; exit 9; fi
 git -C /repo apply $D/patch.diff || { echo "patch does not apply"; exit 9; }
 trap 'git -C /repo checkout -q -- .' EXIT
-/verif/bin/vcheck $P "$@" > /tmp/seedtest_$N.log 2>&1; rc=$?
+VERIF_EVIDENCE_DIR=/tmp/seed_evidence /verif/bin/vcheck $P "$@" > /tmp/seedtest_$N.log 2>&1; rc=$?
 grep -E "^VIOLATION|^KNOWN|violated:|INCONCLUSIVE|HARNESS" /tmp/seedtest_$N.log | cut -c1-260 | head -${SEED_LINES:-6}
 tail -1 /tmp/seedtest_$N.log
 echo "seed=$N exit=$rc"
